@@ -246,3 +246,66 @@ Proof.
   intros Hs Hin Hr. unfold field_set_facts. destruct (Z.eqb_spec size 0); [contradiction|].
   cbn. rewrite app_nil_r. apply in_map. apply filter_In. auto.
 Qed.
+
+(* ---- byte array in / out and the bitwise operators (C06: "Converting a field set to and from its byte array is the
+   identity on the bytes, the bitwise operators act on all underlying bits") ---- *)
+Lemma fs_bytes_roundtrip bs : fs_to_bytes (fs_from_bytes bs) = bs.
+Proof. reflexivity. Qed.
+
+Lemma zip_with_length f : forall a b, List.length a = List.length b -> List.length (zip_with f a b) = List.length a.
+Proof.
+  induction a as [|x a IH]; intros [|y b] H; cbn in *; try reflexivity; try discriminate.
+  f_equal. apply IH. lia.
+Qed.
+
+Lemma zip_with_nth f : forall a b i, List.length a = List.length b -> (i < List.length a)%nat ->
+  nth i (zip_with f a b) 0 = f (nth i a 0) (nth i b 0).
+Proof.
+  induction a as [|x a IH]; intros [|y b] i H Hi; cbn in *; try lia.
+  destruct i as [|i]; [reflexivity|]. apply IH; lia.
+Qed.
+
+(* every bit of every byte: AND / OR / XOR of the two operands' bits at that position *)
+Theorem fs_binops_act_on_all_bits a b i j :
+  List.length a = List.length b -> (i < List.length a)%nat ->
+  Z.testbit (nth i (fs_and a b) 0) j = Z.testbit (nth i a 0) j && Z.testbit (nth i b 0) j /\
+  Z.testbit (nth i (fs_or a b) 0) j = Z.testbit (nth i a 0) j || Z.testbit (nth i b 0) j /\
+  Z.testbit (nth i (fs_xor a b) 0) j = xorb (Z.testbit (nth i a 0) j) (Z.testbit (nth i b 0) j) /\
+  List.length (fs_and a b) = List.length a /\ List.length (fs_or a b) = List.length a /\
+  List.length (fs_xor a b) = List.length a.
+Proof.
+  intros H Hi. unfold fs_and, fs_or, fs_xor. rewrite !zip_with_nth, !zip_with_length by assumption.
+  rewrite Z.land_spec, Z.lor_spec, Z.lxor_spec. repeat split; reflexivity.
+Qed.
+
+Definition zr (n : nat) : list Z := map Z.of_nat (seq 0 n).
+Lemma in_zr n z : 0 <= z < Z.of_nat n -> In z (zr n).
+Proof.
+  intros H. unfold zr. replace z with (Z.of_nat (Z.to_nat z)) by lia. apply in_map, in_seq. lia.
+Qed.
+
+(* a finite domain (256 byte values x 8 bit positions): checked by computation, lifted with forallb_forall *)
+Lemma byte_not_bits_table :
+  forallb (fun x => forallb (fun j => Bool.eqb (Z.testbit (255 - x) j) (negb (Z.testbit x j))) (zr 8)) (zr 256) = true.
+Proof. vm_compute. reflexivity. Qed.
+
+Lemma byte_not_bits x j : 0 <= x < 256 -> 0 <= j < 8 -> Z.testbit (255 - x) j = negb (Z.testbit x j).
+Proof.
+  intros Hx Hj. pose proof byte_not_bits_table as T. rewrite forallb_forall in T.
+  specialize (T x (in_zr 256 x ltac:(lia))). rewrite forallb_forall in T.
+  specialize (T j (in_zr 8 j ltac:(lia))). apply Bool.eqb_prop in T. exact T.
+Qed.
+
+Lemma nth_map_in (f : Z -> Z) a i d d' : (i < List.length a)%nat -> nth i (map f a) d = f (nth i a d').
+Proof. intros H. rewrite (nth_indep _ d (f d')) by (rewrite map_length; exact H). apply map_nth. Qed.
+
+(* NOT flips each of the eight bits of every byte and yields a byte again *)
+Theorem fs_not_acts_on_all_bits a i j :
+  Forall (fun x => 0 <= x < 256) a -> (i < List.length a)%nat -> 0 <= j < 8 ->
+  Z.testbit (nth i (fs_not a) 0) j = negb (Z.testbit (nth i a 0) j) /\
+  0 <= nth i (fs_not a) 0 < 256 /\ List.length (fs_not a) = List.length a.
+Proof.
+  intros Ha Hi Hj. unfold fs_not. rewrite map_length.
+  assert (Hx : 0 <= nth i a 0 < 256) by (rewrite Forall_forall in Ha; apply Ha, nth_In; exact Hi).
+  rewrite (nth_map_in _ a i 0 0 Hi). split; [apply byte_not_bits; assumption|]. split; [lia|reflexivity].
+Qed.
